@@ -415,10 +415,11 @@ func (p *PsUnpacker) parseAvStream(code int, rtpts uint32, rb []byte, index int)
 						// noop
 					} else {
 						if p.preAudioRtpts != int64(rtpts) {
+							// the stream carries no pts: use the rtp timestamp, as the video branch does
 							p.onAvPacketWrap(&base.AvPacket{
 								PayloadType: p.audioPayloadType,
-								Timestamp:   p.preAudioDts / 90,
-								Pts:         p.preAudioPts / 90,
+								Timestamp:   p.preAudioRtpts / 90,
+								Pts:         p.preAudioRtpts / 90,
 								Payload:     p.audioBuf,
 							})
 							// TODO(chef): [perf] 复用内存块 202209
@@ -428,7 +429,9 @@ func (p *PsUnpacker) parseAvStream(code int, rtpts uint32, rb []byte, index int)
 						}
 					}
 				} else {
+					// a further pes packet of the same frame: it inherits pts and dts of the frame
 					pts = p.preAudioPts
+					dts = p.preAudioDts
 				}
 			} else {
 				if pts != p.preAudioPts && p.preAudioPts >= 0 {
